@@ -50,6 +50,12 @@ def single(types_s, types_t):
         out.append(P(d + [("int64_t", "r", "local")], "r = sextract64(a, 0, 8);", ["r"], tag=("marg", s, "sextract64")))
         out.append(P(d + [("int64_t", "r", "local")], "r = deposit32(a, 8, 8, a);", ["r"], tag=("marg", s, "deposit32")))
         out.append(P(d + [("int64_t", "r", "local")], "r = bswap16(a);", ["r"], tag=("marg", s, "bswap16")))
+        # the result of a macro / call directly as an argument: converted to the parameter type like any other expression
+        for outer in ("clz32", "clz64", "fbrev", "clo64", "bswap16", "bswap32"):
+            for inner in ("extract32(a, 0, 12)", "extract64(a, 4, 40)", "sextract64(a, 0, 8)", "bswap16(a)", "bswap64(a)", "clz64(a)", "deposit64(a, 8, 8, a)"):
+                out.append(P(d + [("int64_t", "r", "local")], "r = %s(%s);" % (outer, inner), ["r"], tag=("arg-of-macro", s, outer, inner)))
+        out.append(P(d + [("int64_t", "r", "local")], "r = conv_round(a, extract64(a, 0, 3));", ["r"], tag=("arg-of-macro", s, "conv_round", "extract64")))
+        out.append(P(d + [("int64_t", "r", "local")], "r = extract64(bswap16(a), 4, 8) + deposit32(sextract64(a, 0, 8), 8, 8, bswap64(a));", ["r"], tag=("arg-of-macro", s, "macro", "macro")))
     for t in types_t:
         d = [("uint32_t", "a", "input"), (t, "t", "local"), ("int64_t", "r", "local")]
         for f in ("clz32", "clz64", "revbit16", "fbrev"):
